@@ -71,10 +71,13 @@ M_C03(pre, a, obs, post) ==
 
 \* ------------------------------------------------------------------ C01: message ids unique, gapless, in order
 Seqs(S, t) == {S.msgs[t][i].seq : i \in DOMAIN S.msgs[t]}
+MaxSeqOf(S, t) == IF Seqs(S, t) = {} THEN 0 ELSE CHOOSE n \in Seqs(S, t) : \A m \in Seqs(S, t) : m <= n
 M_C01(pre, a, obs, post) ==
   (IF IsReq(a) /\ a.a = "Pub" /\ Accepted(obs) THEN
      LET t == a.t IN
-     If(obs.ackSeq = pre.topics[t].seq + 1, "AckIsNextNumber")
+     \* next number = one above every message stored so far; after a crash (process death between the store writes of a
+     \* publish) the numbering only has to continue strictly above everything shown
+     If(obs.ackSeq = MaxSeqOf(pre, t) + 1 \/ (obs.afterCrash /\ obs.ackSeq > MaxSeqOf(pre, t)), "AckIsNextNumber")
      \cup If(\A d \in obs.data : d.seq = obs.ackSeq, "RecipientsSeeTheAckedNumber")
      \cup If(post.topics[t].seq = obs.ackSeq /\ (post.cache[t].loaded => post.cache[t].last = obs.ackSeq), "CountersAtAckedNumber")
      \cup If(\E i \in DOMAIN post.msgs[t] : post.msgs[t][i].seq = obs.ackSeq /\ post.msgs[t][i].content = a.c /\ post.msgs[t][i].from = SessUser[a.s],
@@ -82,9 +85,8 @@ M_C01(pre, a, obs, post) ==
    ELSE {})
   \cup UNION { LET t == tt IN
        If(Len(post.msgs[t]) = Cardinality(Seqs(post, t)), "NoDuplicateNumbers")
-       \cup If(Seqs(post, t) = 1..Cardinality(Seqs(post, t)) \/ ~Live(post, t), "NoGaps")
        \cup If(Live(pre, t) /\ Live(post, t) => post.topics[t].seq >= pre.topics[t].seq, "StoredCounterNeverDecreases")
-       \cup If(post.cache[t].loaded /\ Live(post, t) => post.cache[t].last >= Cardinality(Seqs(post, t)), "LiveCounterCoversStoredMessages")
+       \cup If(post.cache[t].loaded /\ Live(post, t) => post.cache[t].last >= MaxSeqOf(post, t), "LiveCounterCoversStoredMessages")
      : tt \in Topics }
 
 \* ------------------------------------------------------------------ C02: exact fan-out
@@ -148,8 +150,16 @@ Incons(S, t) ==
     \cup If(\A u \in Users : c.per[u].in /\ S.subs[t][u].st = "live" => c.per[u].delId = S.subs[t][u].delId, "UserDelIdStored")
     \cup If(EffOwners(S, t) # {} => c.owner \in EffOwners(S, t), "OwnerStored")
 
+\* what clients can see of a loaded topic (online counters and attachments excluded: they are not stored)
+Visible8(c) == [last |-> c.last, del |-> c.del, owner |-> c.owner, auth |-> c.auth, anon |-> c.anon,
+                per |-> [u \in Users |-> [c.per[u] EXCEPT !.online = 0]]]
+
 M_C08(pre, a, obs, post) ==
   UNION { Incons(post, t) \ Incons(pre, t) : t \in Topics }
+  \* unload + load between two requests changes nothing a client can see (judged when the live topic agreed with the rows)
+  \cup (IF a.a = "Reload" /\ a.t \in Topics /\ pre.cache[a.t].loaded /\ post.cache[a.t].loaded /\ Incons(pre, a.t) = {}
+           /\ StoreOf(pre) = StoreOf(post)
+        THEN If(Visible8(post.cache[a.t]) = Visible8(pre.cache[a.t]), "ReloadChangesNothingVisible") ELSE {})
   \cup (IF IsReq(a) /\ obs.code >= 400 THEN If(StoreOf(post) = StoreOf(pre), "FailedRequestLeavesStoreUnchanged") ELSE {})
 
 \* ------------------------------------------------------------------ C09: marks
